@@ -166,9 +166,25 @@ def implRows (impl : String) : Option Nat :=
     if body == "-" then some 0 else some (body.splitOn ",").length
   | none => none
 
+/-- The `via` dimension of the harness - WHERE the retry policy / request timeout in force are configured
+(`PagingExecutor::new`, pager.rs:147-186: statement override `o` next to a contradicting profile, the
+statement's own profile `p`, the session's default profile `s`) - is below the page loop: the model sees
+the policy in force through the attempt outcomes only, so the kinds reduce to `sess` / `sessdg`. -/
+def baseKind (k : String) : String :=
+  if k == "sesso" || k == "sessp" || k == "sesss" then "sess"
+  else if k == "sessdgo" || k == "sessdgp" || k == "sessdgs" then "sessdg"
+  else k
+
+/-- connection loss and the constructor paths are scripted for the plain kinds only -/
+def viaLettersOk (k : String) (pageWords : List String) : Bool :=
+  baseKind k == k || !((pageWords.mapM parsePage).getD []).any fun p =>
+    p.2.2.any fun c => c == 'c' || c == 'X' || c == 'k' || c == 'K'
+
 def runCore (case impl : String) : String :=
   match words case with
-  | kind :: skip :: cons :: pageWords =>
+  | kind0 :: skip :: cons :: pageWords =>
+    if !viaLettersOk kind0 pageWords then "bad-case" else
+    let kind := baseKind kind0
     if kindOf kind == none then "bad-case" else
     -- modes: 0/1 skip flag, 2/3 metadata-id extension, 4..7 frame compression (LZ4 / Snappy, without / with cached
     -- metadata) - compression is below the page loop: the model does not look at it
